@@ -319,6 +319,48 @@ class ListingA(Generic[TA]):
     n: int = 0
 
 
+TM = TypeVar("TM", bound="Money")
+
+
+@dataclass
+class Money:
+    amount: int
+    cur: str = "USD"
+
+
+@dataclass
+class MBox(Generic[TM]):
+    item: TM
+    n: int = 0
+
+
+@dataclass
+class TNode:
+    """Recursion through a constant-length tuple: the tuple loader is re-entered while it is running."""
+    link: Tuple[int, Optional["TNode"]]
+
+
+@dataclass
+class WithExtra3:
+    """Several extra targets, all required."""
+    a: int
+    e1: Dict[str, Any]
+    e2: Dict[str, Any]
+
+
+@dataclass
+class WithExtra4:
+    """Several required extra targets typed Any: their dumped values are the object's own mappings."""
+    a: int
+    e1: Any
+    e2: Any
+
+
+@dataclass
+class TupHolder:
+    items: Tuple[int, typing.Unpack[Tuple[str, ...]]]
+
+
 def _make_dup(tag_value):
     """Two distinct model classes with the same name and module (legal: classes made by a factory)."""
     @dataclass
@@ -533,16 +575,18 @@ _t("annotated",
 _t("model",
    M1=M1, M2=M2, M3=M3, ListM1=List[M1], ListM2=List[M2], OptM1=Optional[M1], DictStrM1=Dict[str, M1],
    Inner=Inner, NT=NT, TD=TD, AT=AT, SnakeCase=SnakeCase, WithAny=WithAny, WithExtra=WithExtra,
-   WithDefaults=WithDefaults, WithExtra2=WithExtra2, DupA=DupA, DupB=DupB, DefF=DefF, DefB=DefB, KwModel=KwModel, StreamHolder=StreamHolder, ListNT=List[NT], SatModel=SatModel, SatOpt=SatOpt)
+   WithDefaults=WithDefaults, WithExtra2=WithExtra2, WithExtra3=WithExtra3, WithExtra4=WithExtra4, TNode=TNode, DupA=DupA, DupB=DupB, DefF=DefF, DefB=DefB, KwModel=KwModel, StreamHolder=StreamHolder, ListNT=List[NT], SatModel=SatModel, SatOpt=SatOpt)
 _t("generic",
    GInt=G[int], GBool=G[bool], GStr=G[str], GListInt=G[List[int]], PairIntStr=Pair[int, str],
-   PairStrInt=Pair[str, int], PairBoolStr=Pair[bool, str], GBare=G, ListingA=ListingA, ListingB=pools_b.ListingB)
+   PairStrInt=Pair[str, int], PairBoolStr=Pair[bool, str], GBare=G, ListingA=ListingA, ListingB=pools_b.ListingB,
+   MBoxA=MBox, MBoxB=pools_b.MBox)
 _t("recursive",
    Node=Node, ListNode=List[Node], Tree=Tree, RA=RA, RB=RB, LinkedInt=Linked[int], LinkedStr=Linked[str],
    LinkedBool=Linked[bool], Outer1=Outer1, Outer2=Outer2, Holder=Holder, OptNode=Optional[Node],
    DictStrNode=Dict[str, Node])
 _t("failing", Unsupported=Unsupported, FwdUser=FwdUser, CallableT=typing.Callable[[int], int],
-   ListUnsupported=List[Unsupported], FlagGap=FlagGap, UserFG=UserFG, GroupFG=GroupFG, ListFlagGap=List[FlagGap])
+   ListUnsupported=List[Unsupported], TupUnpack=Tuple[int, typing.Unpack[Tuple[str, ...]]], TupHolder=TupHolder,
+   ListTupUnpack=List[Tuple[int, typing.Unpack[Tuple[str, ...]]]], FlagGap=FlagGap, UserFG=UserFG, GroupFG=GroupFG, ListFlagGap=List[FlagGap])
 if PM is not None:
     _t("model", PM=PM)
 
@@ -562,7 +606,8 @@ CONFUSABLE_GROUPS = [
     ["DictStrListInt", "DDictStrListInt", "MapStrListInt", "MMapStrListInt"],
     ["M1", "M2", "M3", "ListM1", "ListM2", "OptM1", "DictStrM1"], ["Outer1", "Outer2"], ["N1", "N2", "ListN1", "ListN2"],
     ["AnnInt0", "AnnIntF", "AnnIntX"], ["AnnListInt1", "AnnListIntT"], ["GInt", "GBool", "GStr", "GBare"],
-    ["PairIntStr", "PairStrInt", "PairBoolStr"], ["ListingA", "ListingB"], ["LinkedInt", "LinkedStr", "LinkedBool"], ["TupIntStr", "TupBoolStr"],
+    ["PairIntStr", "PairStrInt", "PairBoolStr"], ["ListingA", "ListingB"], ["MBoxA", "MBoxB"],
+    ["TupUnpack", "TupHolder", "ListTupUnpack"], ["LinkedInt", "LinkedStr", "LinkedBool"], ["TupIntStr", "TupBoolStr"],
     ["RA", "RB"], ["Node", "ListNode", "OptNode", "DictStrNode", "Holder"], ["int", "bool", "float", "Color"],
     ["Unsupported", "ListUnsupported", "CallableT"], ["FlagGap", "UserFG", "GroupFG", "ListFlagGap"], ["bytes", "bytearray", "BytesIO", "IOBytes"],
 ]
@@ -622,6 +667,8 @@ DATA: Dict[str, Any] = {
     "unsupported": {"ok": 1}, "fwd": {"x": 1, "late": {"z": 2}}, "fwd_none": {"x": 1},
     "pm": {"a": 1, "items": [1, 2]},
     "tup_is": [1, "s"], "tup_Ts": [True, "s"], "tup_01": [0, 1], "tup_FT": [False, True],
+    "mbox": {"item": {"amount": 5}, "n": 1}, "tnode": {"link": [1, {"link": [2, {"link": [3, None]}]}]},
+    "withextra3": {"a": 1, "zzz": [7], "yyy": {"k": [1]}},
     "dup_x": {"x": 1}, "def_name": {"name": "s"}, "listing_a": {"item": {"name": "x", "price": 2}, "n": 1}, "listing_b": {"item": {"title": "y"}, "n": 2},
     "m_legacy": {"legacy_a": 1, "m1_a": 5, "a": 7, "b": "x"},
     "m_paths": {"data": {"a": 1, "meta": {"b": "x"}}, "a": 7, "b": "y"}, "inner_paths": {"payload": {"v": 1, "tags": ["t"]}, "v": 2, "tags": ["u"]},
@@ -668,7 +715,9 @@ BATTERY: Dict[str, List[str]] = {
     "DupA": ["dup_x"], "DupB": ["dup_x"], "DefF": ["empty_d", "def_name"], "DefB": ["empty_d", "def_name"],
     "KwModel": ["kw", "m_a"], "SatModel": ["kw", "m_a"], "SatOpt": ["kw0", "kw"], "StreamHolder": ["stream", "stream_bad"],
     "GInt": ["g_v1", "g_vT", "g_vs"], "GBool": ["g_v1", "g_vT", "g_vTb"], "GStr": ["g_vs", "g_v1"], "GListInt": ["g_vl"],
-    "GBare": ["g_v1", "g_vs"], "ListingA": ["listing_a", "listing_b"], "ListingB": ["listing_b", "listing_a"], "PairIntStr": ["pair_is", "pair_si", "pair_Ts", "pair_paths"], "PairStrInt": ["pair_is", "pair_si"],
+    "GBare": ["g_v1", "g_vs"], "ListingA": ["listing_a", "listing_b"], "ListingB": ["listing_b", "listing_a"],
+    "MBoxA": ["mbox"], "MBoxB": ["mbox"], "TNode": ["tnode"], "WithExtra3": ["withextra3", "withextra"], "WithExtra4": ["withextra3", "withextra"],
+    "TupUnpack": ["tup_is"], "TupHolder": ["m_a"], "ListTupUnpack": ["l1"], "PairIntStr": ["pair_is", "pair_si", "pair_Ts", "pair_paths"], "PairStrInt": ["pair_is", "pair_si"],
     "PairBoolStr": ["pair_is", "pair_Ts"],
     "Node": ["node4", "node4_bad", "node1"], "ListNode": ["lnode"], "Tree": ["tree3", "tree3_bad"],
     "RA": ["ra3"], "RB": ["rb3"], "LinkedInt": ["linked_int", "linked_str", "linked_bool"],
@@ -773,6 +822,9 @@ OBJECTS: Dict[str, Any] = {
     "o_lsrcinner": lambda: [SrcInner([1]), SrcInner([2], {"k": [3]})],
     "o_listing_a": lambda: ListingA(ProductA("x", 2), 1), "o_listing_b": lambda: pools_b.ListingB(pools_b.ProductB("y"), 2),
     "o_deff": lambda: DefF(), "o_defb": lambda: DefB(),
+    "o_mbox_a": lambda: MBox(Money(5), 1), "o_mbox_b": lambda: pools_b.MBox(pools_b.Money(5), 1),
+    "o_tnode": lambda: TNode((1, TNode((2, TNode((3, None)))))), "o_withextra3": lambda: WithExtra3(1, {"zzz": [7]}, {"yyy": {"k": [1]}}),
+    "o_withextra4": lambda: WithExtra4(1, {"zzz": [7]}, {"yyy": {"k": [1]}}),
     "o_csrc": lambda: CSrc(1, 2), "o_dupA": lambda: DupA(1), "o_dupB": lambda: DupB(2),
     "o_dsrcinner": lambda: {"p": SrcInner([1]), "q": SrcInner([2], {"k": [3]})},
 }
@@ -849,7 +901,8 @@ DUMP_BATTERY: Dict[str, List[str]] = {
     "OptM1": ["o_m1", "o_none"], "DictStrM1": ["o_dm1"], "Inner": ["o_inner"], "NT": ["o_nt"], "ListNT": ["o_lnt"],
     "TD": ["o_td"], "AT": ["o_at"], "SnakeCase": ["o_snake"], "WithAny": ["o_withany"], "WithExtra": ["o_withextra"], "WithExtra2": ["o_withextra2"],
     "WithDefaults": ["o_withdefaults", "o_withdefaults_full"], "DupA": ["o_dupA"], "DupB": ["o_dupB"], "DefF": ["o_deff"], "DefB": ["o_defb"], "KwModel": ["o_kw"], "SatModel": ["o_sat"], "SatOpt": ["o_satopt0", "o_satopt1"], "StreamHolder": ["o_stream", "o_stream_faulty"],
-    "GInt": ["o_gint", "o_gT"], "GBool": ["o_gT"], "GStr": ["o_gstr"], "GListInt": ["o_glist"], "GBare": ["o_gint"], "ListingA": ["o_listing_a"], "ListingB": ["o_listing_b"],
+    "GInt": ["o_gint", "o_gT"], "GBool": ["o_gT"], "GStr": ["o_gstr"], "GListInt": ["o_glist"], "GBare": ["o_gint"], "ListingA": ["o_listing_a"], "ListingB": ["o_listing_b"], "MBoxA": ["o_mbox_a"], "MBoxB": ["o_mbox_b"],
+    "TNode": ["o_tnode"], "WithExtra3": ["o_withextra3"], "WithExtra4": ["o_withextra4"], "TupUnpack": ["o_tis"], "TupHolder": ["o_i1"], "ListTupUnpack": ["o_l01"],
     "PairIntStr": ["o_pair_is", "o_pair_Ts"], "PairStrInt": ["o_pair_si"], "PairBoolStr": ["o_pair_Ts"],
     "Node": ["o_node3", "o_node1"], "ListNode": ["o_lnode"], "Tree": ["o_tree3"], "RA": ["o_ra"], "RB": ["o_rb"],
     "LinkedInt": ["o_linked_int"], "LinkedStr": ["o_linked_str"], "LinkedBool": ["o_linked_bool"],
@@ -960,6 +1013,8 @@ RECIPES: Dict[str, Any] = {
     "nm_extra_forbid": lambda: [name_mapping(Inner, extra_in=ExtraForbid())],
     "nm_extra_collect": lambda: [name_mapping(WithExtra, extra_in="extra", extra_out="extra"),
                                  name_mapping(WithExtra2, extra_in=["e1", "e2"], extra_out=["e1", "e2"]),
+                                 name_mapping(WithExtra3, extra_in=["e1", "e2"], extra_out=["e1", "e2"]),
+                                 name_mapping(WithExtra4, extra_in=["e1", "e2"], extra_out=["e1", "e2"]),
                                  name_mapping(KwModel, extra_in=ExtraKwargs())],
     "nm_extra_forbid_all": lambda: [name_mapping(extra_in=ExtraForbid())],
     "chain_node_children": lambda: [loader(P[Outer1].node.children, _reverse, Chain.LAST)],
@@ -995,7 +1050,7 @@ RECIPE_TYPES: Dict[str, List[str]] = {
     "scoped_int": ["M1", "M2", "ListM1", "int"], "scoped_node_value": ["Node", "Holder", "Outer1", "ListNode"],
     "scoped_linked_head": ["LinkedInt", "LinkedStr", "LinkedBool"], "enum_by_name": ["Color", "Shade", "LitColorR", "LitShade"],
     "flag_names": ["Perm"], "validator_inner": ["Inner", "Outer1", "Outer2"], "dumper_scoped": ["Node", "Holder", "ListNode"],
-    "nm_as_list": ["M1", "ListM1", "M2"], "nm_extra_collect": ["WithExtra", "KwModel", "WithExtra2"], "nm_extra_forbid": ["Inner", "Outer1"],
+    "nm_as_list": ["M1", "ListM1", "M2"], "nm_extra_collect": ["WithExtra", "KwModel", "WithExtra2", "WithExtra3", "WithExtra4", "WithExtra4"], "nm_extra_forbid": ["Inner", "Outer1"],
     "asis_m2": ["M2", "ListM2", "M1"], "unsupported_fix": ["Unsupported", "ListUnsupported", "CallableT"],
     "nm_snake_only": ["SnakeCase"], "nm_camel": ["SnakeCase", "M1"], "nm_camel_shared": ["SnakeCase", "RA", "RB"],
     "chain_int_last": ["int", "M1", "ListInt", "GInt"], "chain_int_shared": ["int", "M1", "ListInt"],
